@@ -255,6 +255,23 @@ def removeFiltered (pol : List Rule) (fieldIndex : Nat) (vals : List String) : E
   | .error e => .error e
   | .ok (keep, gone) => .ok (keep, !gone.isEmpty)
 
+/-- `remove_filtered_policy_returns_effects`: no field values → nothing is removed; else the removed rules -/
+def removeFilteredEffects (pol : List Rule) (fieldIndex : Nat) (vals : List String) : Except PErr (List Rule × List Rule) :=
+  if vals.isEmpty then .ok (pol, [])
+  else match splitFiltered fieldIndex vals pol with
+    | .error e => .error e
+    | .ok (keep, gone) => .ok (keep, gone)
+
+/-- the loop of `get_values_for_field_in_policy`: `rule[field_index]` (`IndexError`), first occurrences kept -/
+def valuesLoop (fieldIndex : Nat) : List Rule → List String → Except PErr (List String)
+  | [], acc => .ok acc
+  | r :: rest, acc =>
+    match r[fieldIndex]? with
+    | none => .error .indexError
+    | some v => valuesLoop fieldIndex rest (if acc.contains v then acc else acc ++ [v])
+
+def valuesForField (pol : List Rule) (fieldIndex : Nat) : Except PErr (List String) := valuesLoop fieldIndex pol []
+
 /-- `get_filtered_policy` -/
 def getFiltered (pol : List Rule) (fieldIndex : Nat) (vals : List String) : Except PErr (List Rule) :=
   match splitFiltered fieldIndex vals pol with
@@ -341,6 +358,20 @@ def removeFiltered (p : FastPolicy order) (fieldIndex : Nat) (vals : List String
 
 def getFiltered (p : FastPolicy order) (fieldIndex : Nat) (vals : List String) : Except PErr (List Rule) :=
   Plain.getFiltered p.iter fieldIndex vals
+
+/-- [F14a] `FastModel.remove_filtered_policy_returns_effects` -/
+def removeFilteredEffects (p : FastPolicy order) (fieldIndex : Nat) (vals : List String) :
+    FastPolicy order × Except PErr (List Rule) :=
+  match Plain.removeFilteredEffects p.iter fieldIndex vals with
+  | .error e => (p, .error e)
+  | .ok (keep, gone) =>
+    match FastPolicy.ofList order keep with
+    | .error e => (p, .error e)
+    | .ok p' => (p', .ok gone)
+
+/-- `get_values_for_field_in_policy` iterates the container -/
+def valuesForField (p : FastPolicy order) (fieldIndex : Nat) : Except PErr (List String) :=
+  Plain.valuesForField p.iter fieldIndex
 
 /-- [F14b] `FastModel.update_policy` -/
 def updatePolicy (p : FastPolicy order) (old new : Rule) : FastPolicy order × Except PErr Bool :=
@@ -440,6 +471,8 @@ inductive Op
   | add (r : Rule) | addMany (rs : List Rule)
   | remove (r : Rule) | removeMany (rs : List Rule)
   | removeFiltered (i : Nat) (vs : List String)
+  | removeFilteredEffects (i : Nat) (vs : List String)
+  | values (i : Nat)
   | update (o n : Rule) | updateMany (os ns : List Rule)
   | clear | load (ps gs : List Rule)
   | has (r : Rule) | get | getFiltered (i : Nat) (vs : List String)
@@ -476,6 +509,14 @@ def stepPlain (sh : Shape) (s : PlainState) : Op → PlainState × Res
     match Plain.removeFiltered s.p i vs with
     | .error e => (s, .err e)
     | .ok (p, b) => ({ s with p := p }, .bool b)
+  | .removeFilteredEffects i vs =>
+    match Plain.removeFilteredEffects s.p i vs with
+    | .error e => (s, .err e)
+    | .ok (p, gone) => ({ s with p := p }, .rules gone)
+  | .values i =>
+    match Plain.valuesForField s.p i with
+    | .error e => (s, .err e)
+    | .ok vs => (s, .rules (vs.map fun v => [v]))
   | .update o n => let (p, b) := Plain.updatePolicy s.p o n; ({ s with p := p }, .bool b)
   | .updateMany os ns => let (p, b) := Plain.updatePolicies s.p os ns; ({ s with p := p }, .bool b)
   | .clear => ({ p := [], g := [] }, .unit)
@@ -507,6 +548,14 @@ def stepFast (sh : Shape) (s : FastState order) : Op → FastState order × Res
     | .ok (p, b) => ({ s with p := p }, .bool b)
   | .removeMany rs => let (p, b) := removePolicies s.p rs; ({ s with p := p }, resOfBool b)
   | .removeFiltered i vs => let (p, b) := removeFiltered s.p i vs; ({ s with p := p }, resOfBool b)
+  | .removeFilteredEffects i vs =>
+    match removeFilteredEffects s.p i vs with
+    | (p, .ok gone) => ({ s with p := p }, .rules gone)
+    | (p, .error e) => ({ s with p := p }, .err e)
+  | .values i =>
+    match valuesForField s.p i with
+    | .error e => (s, .err e)
+    | .ok vs => (s, .rules (vs.map fun v => [v]))
   | .update o n => let (p, b) := updatePolicy s.p o n; ({ s with p := p }, resOfBool b)
   | .updateMany os ns => let (p, b) := updatePolicies s.p os ns; ({ s with p := p }, resOfBool b)
   | .clear => ({ p := FastPolicy.new order, g := [] }, .unit)      -- `FastModel.clear_policy`
